@@ -295,6 +295,43 @@ def main():
                 h.sample({"kind": kind, "depth": depth, "n_leaves": len(leaves), "style": style})
             shutil.rmtree(os.path.join(root, f"c{ci}_p1"), ignore_errors=True)
             shutil.rmtree(os.path.join(root, f"c{ci}_p3"), ignore_errors=True)
+        # ---- one directory holding the tiles of TWO formats (data tiles next to the colour tiles a transform wrote beside them):
+        # `toasty cascade --format F` cascades format F, whichever format the files suggest first
+        try:
+            base2 = os.path.join(root, "twofmt")
+            pio_n, pio_p = PyramidIO(base2, default_format="npy"), PyramidIO(base2, default_format="png")
+            r2 = np.random.RandomState(rng.randint(0, 2 ** 31 - 1))
+            leaves_n = {(x, y): make_leaf(r2, np.float32, 0, "holes") for (x, y) in ((0, 0), (1, 0), (1, 1))}
+            leaves_p = {(x, y): make_leaf(r2, np.uint8, 4, "full") for (x, y) in ((0, 0), (1, 0), (0, 1), (1, 1))}
+            with warnings.catch_warnings():
+                warnings.simplefilter("ignore")
+                for (x, y), a in leaves_n.items():
+                    pio_n.write_image(Pos(1, x, y), Image.from_array(a.copy()))
+                for (x, y), a in leaves_p.items():
+                    pio_p.write_image(Pos(1, x, y), Image.from_array(a.copy()))
+            for fmt2, leaves2, dtype2, chb in (("npy", leaves_n, np.float32, 0), ("png", leaves_p, np.uint8, 4)):
+                st = run_cascade(base2, fmt2, 1, 1, via_cli="format")
+                h.case(("two-formats", fmt2))
+                h.count("cascade", f"two-formats/cli-format/{fmt2}")
+                pth = (pio_n if fmt2 == "npy" else pio_p).tile_path(Pos(0, 0, 0), makedirs=False)
+                want = spec_parent([leaves2.get(k) for k in ((0, 0), (1, 0), (0, 1), (1, 1))], dtype2, chb)
+                bad2 = None
+                if st != "ok":
+                    bad2 = f"the command {st}"
+                elif not os.path.exists(pth):
+                    bad2 = f"no {fmt2} tile (0,0,0) was written although {len(leaves2)} of its children exist"
+                else:
+                    with warnings.catch_warnings():
+                        warnings.simplefilter("ignore")
+                        got2 = display(np.array(ImageLoader().load_path(pth).asarray()), fmt2)
+                    ok2 = got2.shape == want.shape and (np.allclose(got2, want, rtol=8 * float(np.finfo(np.float32).eps), atol=0.0, equal_nan=True) if got2.dtype.kind == "f" else np.array_equal(got2, want))
+                    if not ok2:
+                        bad2 = f"the {fmt2} tile (0,0,0) is not the reduction of the {fmt2} children"
+                if bad2:
+                    h.violation(f"twoformats:{fmt2}", f"`toasty cascade --start 1 --format {fmt2}` on a directory holding npy and png tiles: {bad2}", input={"formats": ["npy", "png"], "requested": fmt2}, observed=bad2)
+        except Exception as e:
+            import traceback
+            h.violation("twoformats:crash", f"the two-format cascade scenario raised {type(e).__name__}: {e}", input="two-formats", observed=traceback.format_exc()[-500:])
         # ---- apply the Lean index map to the real child files
         if lines:
             out = lean_driver(lines)
